@@ -14,6 +14,12 @@
 //!    pair of known states;
 //! 3. queries on every state / pair.
 //!
+//! 4. builders and incremental constructors as objects with a history
+//!    (`builder.sequences.*`): every call sequence up to a small bound on
+//!    the blocks builders, the resources builders, `ResourceSet` setters,
+//!    `RequestResourceLimit::with_*` and `TbsCert`'s resource setters, each
+//!    against "union of what was pushed since the last replacing call".
+//!
 //! Oracle: a bitmask over the atoms the domain induces on the number space.
 //! The expected representation of a mask is computed here (maximal runs of
 //! atoms, prefix-expressible runs as prefixes) without calling the library.
@@ -2555,6 +2561,575 @@ fn limit_forms(ctx: &Ctx, rs3: &Rs3, have: &[Option<ResourceSet>]) {
     sp.done(true, &format!("all {} limits x {} forms x apply_to on all {} sets", total, LIMIT_FORMS.len(), have.len()));
 }
 
+//------------ builder.sequences: object-level history of builders and incremental constructors ------------
+
+/// One argument of a builder call: the blocks of a subset of atoms, spelled either as the subset's
+/// canonical run list (ascending) or atom by atom from the top down (unsorted and adjacent).
+struct Operand<B> { mask: u32, desc: bool, raw: Vec<(u128, u128)>, blocks: Vec<B> }
+
+fn operand_list<B>(dom: &Dom, masks: &[u32], desc_masks: &[u32], mk: impl Fn(Kind, u128, u128) -> B) -> Vec<Operand<B>> {
+    let mut v = Vec::new();
+    for &m in masks {
+        for desc in [false, true] {
+            if desc && (m.count_ones() < 2 || !desc_masks.contains(&m)) { continue }
+            let raw: Vec<(u128, u128)> = if desc { (0..dom.natoms()).rev().filter(|i| m & (1 << i) != 0).map(|i| dom.atoms[i]).collect() } else { dom.runs(m) };
+            let blocks = raw.iter().map(|&(lo, hi)| mk(dom.kind, lo, hi)).collect();
+            v.push(Operand { mask: m, desc, raw, blocks });
+        }
+    }
+    v
+}
+
+/// The blocks of an operand in the order they are handed over.
+fn operand_txt<B>(dom: &Dom, o: &Operand<B>) -> String { format!("[{}]", o.raw.iter().map(|&(lo, hi)| dom.block_txt(lo, hi, true)).collect::<Vec<_>>().join(", ")) }
+
+fn as_block(_k: Kind, lo: u128, hi: u128) -> AsBlock { if lo == hi { AsBlock::from(asn(lo)) } else { AsBlock::from((asn(lo), asn(hi))) } }
+fn ip_block(k: Kind, lo: u128, hi: u128) -> IpBlock {
+    match prefix_len(lo, hi, k.width()) { Some(l) => IpBlock::from(Prefix::new(addr(k.lib_min(lo)), l)), None => IpBlock::from((addr(k.lib_min(lo)), addr(k.lib_max(hi)))) }
+}
+
+/// The two families of builders behind one interface, so that one explorer runs both (and compares them).
+trait BuilderFam {
+    type Block: Copy + Send + Sync;
+    type BB: Clone;
+    type RB: Clone;
+    type Res;
+    fn block(k: Kind, lo: u128, hi: u128) -> Self::Block;
+    fn bb_new(default: bool) -> Self::BB;
+    fn bb_push(b: &mut Self::BB, k: Kind, lo: u128, hi: u128);
+    fn bb_extend(b: &mut Self::BB, blocks: &[Self::Block]);
+    fn bb_finalize(b: Self::BB) -> Val;
+    fn collect(blocks: &[Self::Block]) -> Val;
+    fn rb_new(default: bool) -> Self::RB;
+    fn rb_inherit(r: &mut Self::RB);
+    fn rb_blocks(r: &mut Self::RB, f: impl FnOnce(&mut Self::BB));
+    fn rb_finalize(r: Self::RB) -> Self::Res;
+    /// (is_inherited, is_present, to_blocks)
+    fn res_shape(r: &Self::Res) -> (bool, bool, Option<Val>);
+    /// == the value made directly: None = inherit(), Some(v) = blocks(v)
+    fn res_is(r: &Self::Res, twin: Option<&Val>) -> bool;
+}
+
+struct AsFam; struct IpFam;
+
+impl BuilderFam for AsFam {
+    type Block = AsBlock; type BB = AsBlocksBuilder; type RB = AsResourcesBuilder; type Res = AsResources;
+    fn block(k: Kind, lo: u128, hi: u128) -> AsBlock { as_block(k, lo, hi) }
+    fn bb_new(default: bool) -> AsBlocksBuilder { if default { AsBlocksBuilder::default() } else { AsBlocksBuilder::new() } }
+    fn bb_push(b: &mut AsBlocksBuilder, _k: Kind, lo: u128, hi: u128) { if lo == hi { b.push(asn(lo)) } else { b.push((asn(lo), asn(hi))) } }
+    fn bb_extend(b: &mut AsBlocksBuilder, blocks: &[AsBlock]) { b.extend(blocks.iter().copied()) }
+    fn bb_finalize(b: AsBlocksBuilder) -> Val { Val::As(b.finalize()) }
+    fn collect(blocks: &[AsBlock]) -> Val { Val::As(blocks.iter().copied().collect()) }
+    fn rb_new(default: bool) -> AsResourcesBuilder { if default { AsResourcesBuilder::default() } else { AsResourcesBuilder::new() } }
+    fn rb_inherit(r: &mut AsResourcesBuilder) { r.inherit() }
+    fn rb_blocks(r: &mut AsResourcesBuilder, f: impl FnOnce(&mut AsBlocksBuilder)) { r.blocks(f) }
+    fn rb_finalize(r: AsResourcesBuilder) -> AsResources { r.finalize() }
+    fn res_shape(r: &AsResources) -> (bool, bool, Option<Val>) { (r.is_inherited(), r.is_present(), r.to_blocks().ok().map(Val::As)) }
+    fn res_is(r: &AsResources, twin: Option<&Val>) -> bool { match twin { None => *r == AsResources::inherit(), Some(Val::As(v)) => *r == AsResources::blocks(v.clone()), _ => false } }
+}
+
+impl BuilderFam for IpFam {
+    type Block = IpBlock; type BB = IpBlocksBuilder; type RB = IpResourcesBuilder; type Res = IpResources;
+    fn block(k: Kind, lo: u128, hi: u128) -> IpBlock { ip_block(k, lo, hi) }
+    fn bb_new(default: bool) -> IpBlocksBuilder { if default { IpBlocksBuilder::default() } else { IpBlocksBuilder::new() } }
+    fn bb_push(b: &mut IpBlocksBuilder, k: Kind, lo: u128, hi: u128) {
+        match prefix_len(lo, hi, k.width()) { Some(l) => b.push(Prefix::new(addr(k.lib_min(lo)), l)), None => b.push((addr(k.lib_min(lo)), addr(k.lib_max(hi)))) }
+    }
+    fn bb_extend(b: &mut IpBlocksBuilder, blocks: &[IpBlock]) { b.extend(blocks.iter().copied()) }
+    fn bb_finalize(b: IpBlocksBuilder) -> Val { Val::Ip(b.finalize()) }
+    fn collect(blocks: &[IpBlock]) -> Val { Val::Ip(blocks.iter().copied().collect()) }
+    fn rb_new(default: bool) -> IpResourcesBuilder { if default { IpResourcesBuilder::default() } else { IpResourcesBuilder::new() } }
+    fn rb_inherit(r: &mut IpResourcesBuilder) { r.inherit() }
+    fn rb_blocks(r: &mut IpResourcesBuilder, f: impl FnOnce(&mut IpBlocksBuilder)) { r.blocks(f) }
+    fn rb_finalize(r: IpResourcesBuilder) -> IpResources { r.finalize() }
+    fn res_shape(r: &IpResources) -> (bool, bool, Option<Val>) { (r.is_inherited(), r.is_present(), r.to_blocks().ok().map(Val::Ip)) }
+    fn res_is(r: &IpResources, twin: Option<&Val>) -> bool { match twin { None => *r == IpResources::inherit(), Some(Val::Ip(v)) => *r == IpResources::blocks(v.clone()), _ => false } }
+}
+
+/// What a block collection denotes in terms of the domain's atoms, read off the stored blocks alone
+/// (no model involved): "blocks:<mask>" if it is exactly a union of atoms, else the stored list.
+fn abstract_val(dom: &Dom, v: &Val) -> String {
+    let r = repr_of(v);
+    let mut m = 0u32;
+    for b in &r { if b.min <= b.max { let (lo, hi) = if dom.kind == Kind::V4 { (b.min >> 96, b.max >> 96) } else { (b.min, b.max) }; m |= dom.touched(lo, hi) } }
+    if denoted(&r) == dom.lib_runs(m) && structural(dom.kind, &r).is_ok() { format!("blocks:{m:b}") } else { format!("other:{} blocks, first {:?}", r.len(), r.first().map(|b| (b.var, b.len))) }
+}
+
+/// Judges one finalized block collection against the model's subset of atoms: literal representation
+/// (set, canonical, one state per set), every observer, and == a twin collected directly from the runs.
+fn judge_blocks<F: BuilderFam>(dom: &Dom, v: &Val, want: u32) -> Vec<(&'static str, String)> {
+    if !same(v, &dom.canon[want as usize]) { return analyze(dom, &repr_of(v), want) }
+    let mut out = Vec::new();
+    if let Err(e) = observers(dom, v, want, true) { out.push(("observers", e)) }
+    let runs: Vec<F::Block> = dom.runs(want).into_iter().map(|(lo, hi)| F::block(dom.kind, lo, hi)).collect();
+    let twin = F::collect(&runs);
+    if !val_eq(v, &twin) || !val_eq(&twin, v) || !val_contains(v, &twin) || !val_contains(&twin, v) { out.push(("twin", "the result is not == / does not mutually contain the collection made directly from the same set".to_string())) }
+    out
+}
+
+/// The same for a finalized AsResources / IpResources; `want`: None = inherit, Some(0) = missing, Some(m) = blocks.
+fn judge_res<F: BuilderFam>(dom: &Dom, r: &F::Res, want: Option<u32>) -> Vec<(&'static str, String)> {
+    let (inh, present, blocks) = F::res_shape(r);
+    let mut out = Vec::new();
+    let shape_txt = |inh: bool, present: bool| if inh { "inherit" } else if present { "blocks" } else { "missing" };
+    match want {
+        None => {
+            if !inh || !present || blocks.is_some() { out.push(("shape", format!("the result is {} (is_inherited={inh} is_present={present} to_blocks().is_ok()={}), the calls made ask for inherit", shape_txt(inh, present), blocks.is_some()))) }
+            else if !F::res_is(r, None) { out.push(("twin", "the result is not == inherit()".to_string())) }
+        }
+        Some(m) => {
+            if inh || present != (m != 0) { out.push(("shape", format!("the result is {}{}, the calls made collect {}", shape_txt(inh, present), blocks.as_ref().map(|v| format!(" {}", dom.show_repr(&repr_of(v)))).unwrap_or_default(), if m == 0 { "nothing (missing)".to_string() } else { dom.show_mask(m) }))) }
+            match blocks {
+                None => if !inh { out.push(("shape", "to_blocks() fails on resources that are not inherited".to_string())) },
+                Some(v) => {
+                    let laws = judge_blocks::<F>(dom, &v, m);
+                    let clean = laws.is_empty();
+                    out.extend(laws);
+                    if clean && out.is_empty() && !F::res_is(r, Some(&v)) { out.push(("twin", "the result is not == blocks(..) of its own blocks".to_string())) }
+                }
+            }
+        }
+    }
+    out
+}
+
+fn abstract_res<F: BuilderFam>(dom: &Dom, r: &F::Res) -> String {
+    let (inh, present, blocks) = F::res_shape(r);
+    if inh { "inherit".to_string() } else if !present { "missing".to_string() } else { blocks.map(|v| abstract_val(dom, &v)).unwrap_or_else(|| "unreadable".to_string()) }
+}
+
+/// Operations on a blocks builder / a resources builder; indices refer to the operand list.
+#[derive(Clone, Copy)]
+enum BOp { Push(usize), Extend(usize), Blocks(usize), BlocksExtend(usize), Inherit, CloneContinue, CloneKeep }
+
+fn bop_txt<B>(dom: &Dom, op: BOp, opnds: &[Operand<B>]) -> String {
+    match op {
+        BOp::Push(i) => format!("push({})", operand_txt(dom, &opnds[i]).trim_matches(|c| c == '[' || c == ']')),
+        BOp::Extend(i) => format!("extend({})", operand_txt(dom, &opnds[i])),
+        BOp::Blocks(i) => if opnds[i].raw.is_empty() { "blocks(push nothing)".to_string() } else { format!("blocks(push each of {})", operand_txt(dom, &opnds[i])) },
+        BOp::BlocksExtend(i) => format!("blocks(extend({}))", operand_txt(dom, &opnds[i])),
+        BOp::Inherit => "inherit()".to_string(),
+        BOp::CloneContinue => "clone() and continue on the clone".to_string(),
+        BOp::CloneKeep => "clone() and keep it".to_string(),
+    }
+}
+
+/// Finalized objects of one run: (what it is, abstract outcome, violated laws).
+type RunOut = Vec<(&'static str, String, Vec<(&'static str, String)>)>;
+
+/// Runs one operation sequence on a real blocks builder; the model is the union of everything pushed.
+fn run_bb<F: BuilderFam>(dom: &Dom, opnds: &[Operand<F::Block>], ops: &[BOp], default: bool) -> RunOut {
+    let mut cur = F::bb_new(default); let mut m = 0u32;
+    let mut fin: Vec<(&'static str, F::BB, u32)> = Vec::new(); let mut kept: Vec<(F::BB, u32)> = Vec::new();
+    for &op in ops { match op {
+        BOp::Push(i) => { let o = &opnds[i]; for &(lo, hi) in &o.raw { F::bb_push(&mut cur, dom.kind, lo, hi) } m |= o.mask }
+        BOp::Extend(i) => { let o = &opnds[i]; F::bb_extend(&mut cur, &o.blocks); m |= o.mask }
+        BOp::CloneContinue => { let c = cur.clone(); fin.push(("the original, finalized right after it was cloned", std::mem::replace(&mut cur, c), m)) }
+        BOp::CloneKeep => kept.push((cur.clone(), m)),
+        _ => unreachable!(),
+    } }
+    let mut out: RunOut = Vec::new();
+    for (what, b, bm) in fin { let v = F::bb_finalize(b); out.push((what, abstract_val(dom, &v), judge_blocks::<F>(dom, &v, bm))) }
+    let v = F::bb_finalize(cur); out.push(("the builder", abstract_val(dom, &v), judge_blocks::<F>(dom, &v, m)));
+    for (b, bm) in kept { let v = F::bb_finalize(b); out.push(("the clone taken earlier, finalized last", abstract_val(dom, &v), judge_blocks::<F>(dom, &v, bm))) }
+    out
+}
+
+/// The same on a real resources builder; model: None = inherit, Some(mask) = blocks collected since
+/// the builder was made or since the last inherit().
+fn run_rb<F: BuilderFam>(dom: &Dom, opnds: &[Operand<F::Block>], ops: &[BOp], default: bool) -> RunOut {
+    let mut cur = F::rb_new(default); let mut m: Option<u32> = Some(0);
+    let mut fin: Vec<(&'static str, F::RB, Option<u32>)> = Vec::new(); let mut kept: Vec<(F::RB, Option<u32>)> = Vec::new();
+    for &op in ops { match op {
+        BOp::Blocks(i) => { let o = &opnds[i]; F::rb_blocks(&mut cur, |b| for &(lo, hi) in &o.raw { F::bb_push(b, dom.kind, lo, hi) }); m = Some(m.unwrap_or(0) | o.mask) }
+        BOp::BlocksExtend(i) => { let o = &opnds[i]; F::rb_blocks(&mut cur, |b| F::bb_extend(b, &o.blocks)); m = Some(m.unwrap_or(0) | o.mask) }
+        BOp::Inherit => { F::rb_inherit(&mut cur); m = None }
+        BOp::CloneContinue => { let c = cur.clone(); fin.push(("the original, finalized right after it was cloned", std::mem::replace(&mut cur, c), m)) }
+        BOp::CloneKeep => kept.push((cur.clone(), m)),
+        _ => unreachable!(),
+    } }
+    let mut out: RunOut = Vec::new();
+    for (what, b, bm) in fin { let r = F::rb_finalize(b); out.push((what, abstract_res::<F>(dom, &r), judge_res::<F>(dom, &r, bm))) }
+    let r = F::rb_finalize(cur); out.push(("the builder", abstract_res::<F>(dom, &r), judge_res::<F>(dom, &r, m)));
+    for (b, bm) in kept { let r = F::rb_finalize(b); out.push(("the clone taken earlier, finalized last", abstract_res::<F>(dom, &r), judge_res::<F>(dom, &r, bm))) }
+    out
+}
+
+/// Everything one family needs for the two single-family builder spaces.
+struct FamSetup<F: BuilderFam> { dom: Dom, opnds: Vec<Operand<F::Block>> }
+
+fn fam_setup<F: BuilderFam>(dom: Dom) -> FamSetup<F> {
+    let masks: Vec<u32> = (0..(1u32 << dom.natoms())).collect();
+    let opnds = operand_list(&dom, &masks, &masks, F::block);
+    FamSetup { dom, opnds }
+}
+
+/// Blocks builders and resources builders of the three families over two isomorphic 4-atom universes.
+fn builder_sequences_single(ctx: &Ctx, max_len: u32) {
+    let universes: Vec<(&str, FamSetup<AsFam>, FamSetup<IpFam>, FamSetup<IpFam>)> = vec![
+        ("ends", fam_setup(Dom::from_points("bseq.as", Kind::As, &[0, 1, u32::MAX as u128])), fam_setup(Dom::from_points("bseq.v4", Kind::V4, &[0, 1, u32::MAX as u128])), fam_setup(Dom::from_points("bseq.v6", Kind::V6, &[0, 1, u128::MAX]))),
+        ("quarters", fam_setup(Dom::aligned("bseq.asq", Kind::As, 2)), fam_setup(Dom::aligned("bseq.v4q", Kind::V4, 2)), fam_setup(Dom::aligned("bseq.v6q", Kind::V6, 2))),
+    ];
+    for which in ["blocks", "resources"] {
+        let resources = which == "resources";
+        let sp = ctx.space(&format!("builder.sequences.{which}"), if resources {
+            "AsResourcesBuilder / IpResourcesBuilder (as IPv4 and as IPv6) as objects with a history: every sequence of <= N calls out of {blocks(|b| push each block of X), blocks(|b| b.extend(X)) for every subset X of a 4-atom universe (the empty call included; X spelled as its run list or atom by atom from the top, i.e. unsorted and adjacent), inherit(), clone() and continue on the clone (the original is finalized at once), clone() and keep it (finalized last)} starting from new() and from default(), then finalize(); universes: atoms {0},{1},{2..MAX-1},{MAX} and the four quarters of the space (prefixes). Reading of the (sparse) documentation, stated here because the oracle depends on it: the builder holds ONE blocks builder ('an empty builder will be transformed into missing resources', 'None means inherited') which every blocks() call is handed, so blocks() ACCUMULATES; inherit() REPLACES everything collected by the inherit marker and a later blocks() starts again from nothing -- the two families' in-tree code agrees on all of this. Model: inherit | union of everything pushed since construction / the last inherit(). The finalized value must have the model's shape (inherit / missing / blocks), be literally the canonical block list, satisfy every observer and be == the value made directly; independently of the model the three families must give the same abstract outcome for the same sequence (siblings_agree). Non-trivial = sequences with at least two block-collecting calls, or a block-collecting call after inherit()"
+        } else {
+            "AsBlocksBuilder / IpBlocksBuilder (as IPv4 and as IPv6) as objects with a history: every sequence of <= N calls out of {push(b) for every single run b of a 4-atom universe (through the Asn / (Asn, Asn) / Prefix / (Addr, Addr) conversions), Extend::extend(X) for every subset X (the empty one included; spelled as its run list or atom by atom from the top, i.e. unsorted and adjacent), clone() and continue on the clone (the original is finalized at once), clone() and keep it (finalized last)} starting from new() and from default(), then finalize(). push and Extend by their names and std's contract ADD to what was collected; nothing replaces. Model: union of everything pushed. The finalized collection must be literally the canonical block list of the union, satisfy every observer and be == the collection made directly from the set; independently of the model the three families must give the same abstract outcome (siblings_agree). Non-trivial = sequences with at least two collecting calls whose sets touch or overlap"
+        });
+        let pfx = format!("C03.builder.sequences.{which}");
+        let states: Mutex<BTreeSet<String>> = Mutex::new(BTreeSet::new());
+        let mut alphabet = 0usize; let mut total_seqs = 0u64;
+        for (uname, fa, f4, f6) in &universes {
+            // the operation alphabet is the same for the three families (isomorphic atoms)
+            let n_op = fa.opnds.len(); assert_eq!(n_op, f4.opnds.len()); assert_eq!(n_op, f6.opnds.len());
+            let mut ops: Vec<BOp> = Vec::new();
+            if resources {
+                for i in 0..n_op { ops.push(BOp::Blocks(i)); ops.push(BOp::BlocksExtend(i)) }
+                ops.push(BOp::Inherit);
+            } else {
+                for i in 0..n_op { let o = &fa.opnds[i]; if !o.desc && o.raw.len() == 1 { ops.push(BOp::Push(i)) } }
+                for i in 0..n_op { ops.push(BOp::Extend(i)) }
+            }
+            ops.push(BOp::CloneContinue); ops.push(BOp::CloneKeep);
+            let k = ops.len() as u64; alphabet = ops.len();
+            let total = seq_count(k, max_len); total_seqs += total * 2;
+            // one sweep per sequence length, shortest first, so that the witnesses printed are the shortest
+            for len in 0..=max_len { let (from, to) = (if len == 0 { 0 } else { seq_count(k, len - 1) } * 2, seq_count(k, len) * 2);
+            par_chunks(to - from, 512, |lo, hi| {
+                let (lo, hi) = (lo + from, hi + from);
+                let mut oc: BTreeMap<&'static str, u64> = BTreeMap::new();
+                let mut local_states: BTreeSet<String> = BTreeSet::new();
+                let (mut evals, mut nontriv, mut trans) = (0u64, 0u64, 0u64);
+                let mut idx: Vec<usize> = Vec::new();
+                for n in lo..hi {
+                    let default = n % 2 == 1;
+                    seq_at(k, max_len, n / 2, &mut idx);
+                    let seq: Vec<BOp> = idx.iter().map(|&i| ops[i]).collect();
+                    // non-triviality, measured on the sequence
+                    let mut collected: Vec<u32> = Vec::new(); let mut after_inherit = false; let mut seen_inherit = false;
+                    for op in &seq { match *op {
+                        BOp::Push(i) | BOp::Extend(i) | BOp::Blocks(i) | BOp::BlocksExtend(i) => { collected.push(fa.opnds[i].mask); if seen_inherit { after_inherit = true } }
+                        BOp::Inherit => seen_inherit = true, _ => {} } }
+                    let touching = |a: u32, b: u32| a & b != 0 || (a << 1) & b != 0 || (b << 1) & a != 0;
+                    let nt = if resources { collected.len() >= 2 || after_inherit } else { (0..collected.len()).any(|i| (i + 1..collected.len()).any(|j| touching(collected[i], collected[j]))) };
+                    if nt { nontriv += 1 }
+                    let wit = |fam: &str, dom: &Dom, txt: &dyn Fn(BOp) -> String| format!("builder={}{} start={} calls=[{}finalize()]", if fam == "as" { "As" } else { "Ip" }, if resources { "ResourcesBuilder" } else { "BlocksBuilder" }, if default { "default()" } else { "new()" }, seq.iter().map(|o| txt(*o) + "; ").collect::<String>()) + &format!(" family={fam} universe={uname}:{}", dom.atoms.len());
+                    let ra = guard(|| if resources { run_rb::<AsFam>(&fa.dom, &fa.opnds, &seq, default) } else { run_bb::<AsFam>(&fa.dom, &fa.opnds, &seq, default) });
+                    let r4 = guard(|| if resources { run_rb::<IpFam>(&f4.dom, &f4.opnds, &seq, default) } else { run_bb::<IpFam>(&f4.dom, &f4.opnds, &seq, default) });
+                    let r6 = guard(|| if resources { run_rb::<IpFam>(&f6.dom, &f6.opnds, &seq, default) } else { run_bb::<IpFam>(&f6.dom, &f6.opnds, &seq, default) });
+                    evals += 3; trans += 3 * (seq.len() as u64 + 1);
+                    let wa = || wit("as", &fa.dom, &|o| bop_txt(&fa.dom, o, &fa.opnds));
+                    let w4 = || wit("v4", &f4.dom, &|o| bop_txt(&f4.dom, o, &f4.opnds));
+                    let w6 = || wit("v6", &f6.dom, &|o| bop_txt(&f6.dom, o, &f6.opnds));
+                    let mut abstracts: Vec<Option<Vec<String>>> = Vec::new();
+                    for (fam, r, w) in [("as", ra, &wa as &dyn Fn() -> String), ("v4", r4, &w4), ("v6", r6, &w6)] {
+                        match r {
+                            Err(p) => { ctx.fail(&format!("{pfx}.panic"), w(), p); abstracts.push(None) }
+                            Ok(outs) => {
+                                for (what, abs, laws) in &outs {
+                                    if fam == "as" { local_states.insert(abs.clone()); }
+                                    let cls: &'static str = if abs == "inherit" { "finalized:inherit" } else if abs == "missing" || abs == "blocks:0" { "finalized:empty-or-missing" } else if abs.starts_with("blocks:") { "finalized:blocks" } else { "finalized:malformed" };
+                                    *oc.entry(cls).or_insert(0) += 1;
+                                    for (law, d) in laws { ctx.fail(&format!("{pfx}.{law}"), w(), format!("{what}: {d}")) }
+                                }
+                                abstracts.push(Some(outs.into_iter().map(|o| o.1).collect()));
+                            }
+                        }
+                    }
+                    if let (Some(a), Some(b), Some(c)) = (&abstracts[0], &abstracts[1], &abstracts[2]) {
+                        if a != b || a != c { ctx.fail(&format!("{pfx}.siblings_agree"), wa(), format!("the same calls give {a:?} on the AS builder, {b:?} on the IP builder with IPv4 blocks and {c:?} with IPv6 blocks (blocks:<bitmask over the atoms>)")) }
+                    }
+                }
+                sp.evals(evals); sp.nontrivial(nontriv); sp.transitions(trans); sp.traces(evals); sp.merge_outcomes(&oc);
+                states.lock().unwrap().extend(local_states);
+            }); }
+        }
+        let states = states.into_inner().unwrap();
+        sp.states(states.len() as u64);
+        sp.set("universes", json!(universes.iter().map(|u| u.0).collect::<Vec<_>>()));
+        sp.set("operation_alphabet", json!(alphabet)); sp.set("sequences_per_family", json!(total_seqs)); sp.set("families", json!(["as", "v4", "v6"]));
+        sp.set("model_states_reached", json!(states.iter().cloned().collect::<Vec<_>>()));
+        for (uname, fa, f4, _) in &universes {
+            sp.sample_str(|| format!("universe {uname}: atoms {} resp. {}; operands e.g. {}", fa.dom.atoms.iter().map(|a| fa.dom.block_txt(a.0, a.1, true)).collect::<Vec<_>>().join(" | "), f4.dom.atoms.iter().map(|a| f4.dom.block_txt(a.0, a.1, true)).collect::<Vec<_>>().join(" | "), f4.opnds.iter().skip(5).step_by(6).take(4).map(|o| operand_txt(&f4.dom, o)).collect::<Vec<_>>().join(" | ")));
+        }
+        sp.done(true, &format!("all sequences of <= {max_len} calls over {alphabet} calls x 2 starts x 3 families x 2 universes, each finalized"));
+    }
+}
+
+/// A family's shape inside a multi-family object: None = inherit, Some(0) = missing / empty, Some(m) = blocks.
+type Sh = Option<u32>;
+
+fn sh_txt(dom: &Dom, s: Sh) -> String { match s { None => "inherit".to_string(), Some(0) => "missing".to_string(), Some(m) => dom.show_mask(m) } }
+
+/// Operations on the three-family objects; family 0 = asn, 1 = v4, 2 = v6; `usize` = index into the family's operand list.
+#[derive(Clone, Copy)]
+enum MOp { Set(usize, usize), SetShape(usize, Sh), SetInherit(usize), Build(usize, usize), FromIter(usize, usize), CloneContinue, CloneKeep }
+
+struct Multi { doms: [Dom; 3], oa: Vec<Operand<AsBlock>>, o4: Vec<Operand<IpBlock>>, o6: Vec<Operand<IpBlock>> }
+
+impl Multi {
+    fn new(pts: &[u128], pts6: &[u128]) -> Multi {
+        let doms = [Dom::from_points("bseq.rs.asn", Kind::As, pts), Dom::from_points("bseq.rs.v4", Kind::V4, pts), Dom::from_points("bseq.rs.v6", Kind::V6, pts6)];
+        let masks: Vec<u32> = (0..(1u32 << doms[0].natoms())).collect();
+        let full = (1u32 << doms[0].natoms()) - 1;
+        // atom-by-atom spellings for the two sets that merge across atoms
+        let desc = [3u32, full];
+        let oa = operand_list(&doms[0], &masks, &desc, as_block); let o4 = operand_list(&doms[1], &masks, &desc, ip_block); let o6 = operand_list(&doms[2], &masks, &desc, ip_block);
+        Multi { doms, oa, o4, o6 }
+    }
+    fn n_operands(&self) -> usize { self.oa.len() }
+    fn mask(&self, i: usize) -> u32 { self.oa[i].mask }
+    fn desc(&self, i: usize) -> bool { self.oa[i].desc }
+    fn as_val(&self, i: usize) -> AsBlocks { self.oa[i].blocks.iter().copied().collect() }
+    fn v4_val(&self, i: usize) -> IpBlocks { self.o4[i].blocks.iter().copied().collect() }
+    fn v6_val(&self, i: usize) -> IpBlocks { self.o6[i].blocks.iter().copied().collect() }
+    fn twin_as(&self, m: u32) -> AsBlocks { self.doms[0].runs(m).into_iter().map(|(a, b)| as_block(Kind::As, a, b)).collect() }
+    fn twin_ip(&self, f: usize, m: u32) -> IpBlocks { self.doms[f].runs(m).into_iter().map(|(a, b)| ip_block(self.doms[f].kind, a, b)).collect() }
+    fn fam_name(f: usize) -> &'static str { ["as", "v4", "v6"][f] }
+    fn operand_txt(&self, f: usize, i: usize) -> String { match f { 0 => operand_txt(&self.doms[0], &self.oa[i]), 1 => operand_txt(&self.doms[1], &self.o4[i]), _ => operand_txt(&self.doms[2], &self.o6[i]) } }
+    fn show3(&self, t: [Sh; 3]) -> String { format!("{{asn={} v4={} v6={}}}", sh_txt(&self.doms[0], t[0]), sh_txt(&self.doms[1], t[1]), sh_txt(&self.doms[2], t[2])) }
+    /// Literal comparison of a family's stored blocks with the model's canonical list.
+    fn lit_as(&self, v: &AsBlocks, m: u32) -> bool { same(&Val::As(v.clone()), &self.doms[0].canon[m as usize]) }
+    fn lit_ip(&self, f: usize, v: &IpBlocks, m: u32) -> bool { same(&Val::Ip(v.clone()), &self.doms[f].canon[m as usize]) }
+}
+
+fn mop_txt(mu: &Multi, target: &str, op: MOp) -> String {
+    let (set, build) = match target { "set" => ("set_", ""), "limit" => ("with_", ""), _ => ("set_", "build_") };
+    match op {
+        MOp::Set(f, i) => if target == "tbs" { format!("set_{}_resources(blocks({}))", Multi::fam_name(f), mu.operand_txt(f, i)) } else { format!("{set}{}({})", ["asn", "ipv4", "ipv6"][f], mu.operand_txt(f, i)) },
+        MOp::SetShape(f, s) => format!("set_{}_resources({})", Multi::fam_name(f), if s.is_none() { "inherit()" } else { "missing()" }),
+        MOp::SetInherit(f) => format!("set_{}_resources_inherit()", Multi::fam_name(f)),
+        MOp::Build(f, i) => if mu.oa[i].raw.is_empty() { format!("{build}{}_resource_blocks(push nothing)", Multi::fam_name(f)) } else { format!("{build}{}_resource_blocks(push each of {})", Multi::fam_name(f), mu.operand_txt(f, i)) },
+        MOp::FromIter(f, i) => format!("{}_resources_from_iter({})", Multi::fam_name(f), mu.operand_txt(f, i)),
+        MOp::CloneContinue => "clone() and continue on the clone".to_string(),
+        MOp::CloneKeep => "clone() and keep it".to_string(),
+    }
+}
+
+/// Every observer of a ResourceSet against the model triple, and against a twin that only ever saw the final state.
+fn judge_set(mu: &Multi, x: &ResourceSet, t: [u32; 3]) -> Result<(), String> {
+    if !mu.lit_as(x.asn(), t[0]) || !mu.lit_ip(1, x.ipv4(), t[1]) || !mu.lit_ip(2, x.ipv6(), t[2]) { return Err(format!("the set is {x}, the calls made leave {}", mu.show3([Some(t[0]), Some(t[1]), Some(t[2])]))) }
+    let obs = x.is_empty() == (t == [0, 0, 0]) && x.asn_opt().is_some() == (t[0] != 0) && x.ipv4_opt().is_some() == (t[1] != 0) && x.ipv6_opt().is_some() == (t[2] != 0)
+        && x.to_as_resources().is_present() == (t[0] != 0) && x.to_ip_resources_v4().is_present() == (t[1] != 0) && x.to_ip_resources_v6().is_present() == (t[2] != 0);
+    if !obs { return Err(format!("is_empty / *_opt / to_*_resources of {x} disagree with its content")) }
+    let twin = ResourceSet::new(mu.twin_as(t[0]), mu.twin_ip(1, t[1]).into(), mu.twin_ip(2, t[2]).into());
+    if *x != twin || twin != *x || !x.contains(&twin) || !twin.contains(x) || x.to_string() != twin.to_string() || !x.difference(&twin).is_empty() { return Err(format!("{x} differs (==, contains, Display or difference) from the set made directly from the same three parts")) }
+    let (a, b) = (serde_json::to_string(x).map_err(|e| e.to_string())?, serde_json::to_string(&twin).map_err(|e| e.to_string())?);
+    if a != b { return Err(format!("serializes as {a}, the set made directly as {b}")) }
+    Ok(())
+}
+
+/// The same for a request limit; per family None = no limit.
+fn judge_limit(mu: &Multi, l: &RequestResourceLimit, t: [Sh; 3], probes: &[([u32; 3], ResourceSet)]) -> Result<(), String> {
+    let fa = match (l.asn(), t[0]) { (None, None) => true, (Some(v), Some(m)) => mu.lit_as(v, m), _ => false };
+    let f4 = match (l.ipv4(), t[1]) { (None, None) => true, (Some(v), Some(m)) => mu.lit_ip(1, v, m), _ => false };
+    let f6 = match (l.ipv6(), t[2]) { (None, None) => true, (Some(v), Some(m)) => mu.lit_ip(2, v, m), _ => false };
+    let want_txt = || format!("{{asn={} v4={} v6={}}}", t[0].map(|m| mu.doms[0].show_mask(m)).unwrap_or("unlimited".into()), t[1].map(|m| mu.doms[1].show_mask(m)).unwrap_or("unlimited".into()), t[2].map(|m| mu.doms[2].show_mask(m)).unwrap_or("unlimited".into()));
+    if !fa || !f4 || !f6 { return Err(format!("the limit is \"{l}\", the calls made leave {}", want_txt())) }
+    if l.is_empty() != (t == [None, None, None]) { return Err(format!("is_empty() is {} for {}", l.is_empty(), want_txt())) }
+    let mut twin = RequestResourceLimit::new();
+    if let Some(m) = t[0] { twin.with_asn(mu.twin_as(m)) } if let Some(m) = t[1] { twin.with_ipv4(mu.twin_ip(1, m).into()) } if let Some(m) = t[2] { twin.with_ipv6(mu.twin_ip(2, m).into()) }
+    if *l != twin || l.to_string() != twin.to_string() { return Err(format!("\"{l}\" differs (== or Display) from the limit made directly, \"{twin}\"")) }
+    let (a, b) = (serde_json::to_string(l).map_err(|e| e.to_string())?, serde_json::to_string(&twin).map_err(|e| e.to_string())?);
+    if a != b { return Err(format!("serializes as {a}, the limit made directly as {b}")) }
+    for (pt, set) in probes {
+        let pick = |lim: Sh, x: u32| match lim { None => Some(x), Some(y) => if y & !x == 0 { Some(y) } else { None } };
+        let want = match (pick(t[0], pt[0]), pick(t[1], pt[1]), pick(t[2], pt[2])) { (Some(a), Some(b), Some(c)) => Some([a, b, c]), _ => None };
+        match (l.apply_to(set).ok(), want) {
+            (None, None) => {}
+            (Some(got), Some(w)) if mu.lit_as(got.asn(), w[0]) && mu.lit_ip(1, got.ipv4(), w[1]) && mu.lit_ip(2, got.ipv6(), w[2]) => {}
+            (got, _) => return Err(format!("apply_to({set}) gives {}, expected {}", got.map(|g| g.to_string()).unwrap_or("a refusal".into()), want.map(|w| mu.show3([Some(w[0]), Some(w[1]), Some(w[2])])).unwrap_or("a refusal".into()))),
+        }
+    }
+    Ok(())
+}
+
+fn find(hay: &[u8], needle: &[u8]) -> bool { needle.len() <= hay.len() && hay.windows(needle.len()).any(|w| w == needle) }
+
+/// The RFC 3779 extensions the model's shapes call for, written by the independent encoder.
+struct TbsExpect { ip_oid: Vec<u8>, as_oid: Vec<u8>, ip_ext: Option<Vec<u8>>, as_ext: Option<Vec<u8>> }
+
+fn tbs_expect(mu: &Multi, t: [Sh; 3]) -> TbsExpect {
+    let ip_oid = der::oid(&[1, 3, 6, 1, 5, 5, 7, 1, 7]); let as_oid = der::oid(&[1, 3, 6, 1, 5, 5, 7, 1, 8]);
+    let fam = |f: usize| -> Option<Vec<u8>> {
+        let dom = &mu.doms[f]; let w = dom.kind.width();
+        let afi = der::octets(&[0, if f == 1 { 1 } else { 2 }]);
+        match t[f] {
+            Some(0) => None,
+            None => Some(der::seq(&[afi, der::null()])),
+            Some(m) => { let items: Vec<Vec<u8>> = dom.runs(m).into_iter().map(|(lo, hi)| match prefix_len(lo, hi, w) { Some(l) => der::ip_prefix_bits(lo, l, w as u8), None => der::ip_range(lo, hi, w as u8) }).collect(); Some(der::seq(&[afi, der::seq(&items)])) }
+        }
+    };
+    let fams: Vec<Vec<u8>> = [fam(1), fam(2)].into_iter().flatten().collect();
+    let ip_ext = if fams.is_empty() { None } else { Some(der::seq(&[ip_oid.clone(), der::boolean(true), der::octets(&der::seq(&fams))])) };
+    let as_ext = match t[0] {
+        Some(0) => None,
+        None => Some(der::as_identifiers(None)),
+        Some(m) => { let items: Vec<der::AsItem> = mu.doms[0].runs(m).into_iter().map(|(lo, hi)| if lo == hi { der::AsItem::Id(lo) } else { der::AsItem::Range(lo, hi) }).collect(); Some(der::as_identifiers(Some(&items))) }
+    }.map(|v| der::seq(&[as_oid.clone(), der::boolean(true), der::octets(&v)]));
+    TbsExpect { ip_oid, as_oid, ip_ext, as_ext }
+}
+
+/// Accessors and the encoded extensions of a TbsCert against the model's three shapes.
+fn judge_tbs(mu: &Multi, tbs: &rpki::repository::cert::TbsCert, t: [Sh; 3]) -> Result<(), String> {
+    let shape_ip = |f: usize, r: &IpResources| -> bool { match t[f] {
+        None => r.is_inherited() && r.is_present() && r.to_blocks().is_err() && *r == IpResources::inherit(),
+        Some(0) => !r.is_inherited() && !r.is_present() && r.to_blocks().map(|b| b.is_empty()).unwrap_or(false) && *r == IpResources::missing(),
+        Some(m) => !r.is_inherited() && r.is_present() && r.to_blocks().map(|b| mu.lit_ip(f, &b, m)).unwrap_or(false) && *r == IpResources::blocks(mu.twin_ip(f, m)),
+    } };
+    let a = tbs.as_resources();
+    let as_ok = match t[0] {
+        None => a.is_inherited() && a.is_present() && a.to_blocks().is_err() && *a == AsResources::inherit(),
+        Some(0) => !a.is_inherited() && !a.is_present() && a.to_blocks().map(|b| b.is_empty()).unwrap_or(false) && *a == AsResources::missing(),
+        Some(m) => !a.is_inherited() && a.is_present() && a.to_blocks().map(|b| mu.lit_as(&b, m)).unwrap_or(false) && *a == AsResources::blocks(mu.twin_as(m)),
+    };
+    let show_ip = |r: &IpResources, f: usize| if r.is_inherited() { "inherit".to_string() } else if !r.is_present() { "missing".to_string() } else { r.to_blocks().map(|b| mu.doms[f].show_repr(&repr_of(&Val::Ip(b)))).unwrap_or_default() };
+    if !as_ok || !shape_ip(1, tbs.v4_resources()) || !shape_ip(2, tbs.v6_resources()) {
+        return Err(format!("the certificate data hold {{asn={} v4={} v6={}}}, the calls made leave {}", if a.is_present() { a.to_string() } else { "missing".to_string() }, show_ip(tbs.v4_resources(), 1), show_ip(tbs.v6_resources(), 2), mu.show3(t)))
+    }
+    if tbs.has_ip_resources() != (t[1] != Some(0) || t[2] != Some(0)) { return Err(format!("has_ip_resources() is {} for {}", tbs.has_ip_resources(), mu.show3(t))) }
+    let bytes = tbs.encode_ref().to_captured(Mode::Der);
+    let e = tbs_expect(mu, t);
+    match &e.ip_ext { Some(x) => if !find(bytes.as_slice(), x) { return Err(format!("the encoded certificate data do not contain the IP address extension of {}", mu.show3(t))) }, None => if find(bytes.as_slice(), &e.ip_oid) { return Err("the encoded certificate data contain an IP address extension although both families are missing".to_string()) } }
+    match &e.as_ext { Some(x) => if !find(bytes.as_slice(), x) { return Err(format!("the encoded certificate data do not contain the AS extension of {}", mu.show3(t))) }, None => if find(bytes.as_slice(), &e.as_oid) { return Err("the encoded certificate data contain an AS extension although the AS resources are missing".to_string()) } }
+    Ok(())
+}
+
+/// ResourceSet setters, RequestResourceLimit::with_*, and TbsCert's resource setters / builders, as objects with a history.
+fn builder_sequences_multi(ctx: &Ctx, max_len: u32) {
+    let thorough = ctx.tier.is_thorough();
+    let mu = if thorough { Multi::new(&[0, 1, u32::MAX as u128], &[0, 1, u128::MAX]) } else { Multi::new(&[0, u32::MAX as u128], &[0, u128::MAX]) };
+    let mu3 = Multi::new(&[0, u32::MAX as u128], &[0, u128::MAX]); // the certificate data always over the 3-atom universe
+    let signer = rpki_verif::engine::signer::PoolSigner::load();
+    let base_tbs = {
+        use rpki::repository::cert::{KeyUsage, TbsCert};
+        let key = signer.public(0);
+        TbsCert::new(rpki::repository::x509::Serial::from(1u64), key.to_subject_name(), rpki_verif::engine::pki::default_validity(), None, key, KeyUsage::Ca, Overclaim::Refuse)
+    };
+    for target in ["set", "limit", "tbs"] {
+        let mu = if target == "tbs" { &mu3 } else { &mu };
+        let nat = mu.doms[0].natoms(); let full = (1u32 << nat) - 1;
+        let sp = ctx.space(&format!("builder.sequences.{target}"), match target {
+            "set" => "ResourceSet as an object with a history: every sequence of <= N calls out of {set_asn(X), set_ipv4(X), set_ipv6(X) for every subset X of the family's atoms (collected from its run list or atom by atom, highest first), clone() and continue on the clone (the original is judged at once), clone() and keep it (judged last)} starting from empty(), default() and all(). The setters carry no documentation; by their name and in-tree they REPLACE the one family and leave the other two alone, the three siblings alike. Model: per family the last set given. After the sequence the set must be literally the three canonical block lists, with every observer (is_empty, *_opt, to_*_resources, ==, contains, difference, Display, serde) agreeing with a twin made directly from the final parts; non-trivial = sequences that set one family at least twice or two different families",
+            "limit" => "RequestResourceLimit as an object with a history: every sequence of <= N calls out of {with_asn(X), with_ipv4(X), with_ipv6(X) for every subset X (the empty set included: 'ask for nothing' differs from 'no limit'), clone() and continue on the clone, clone() and keep it} starting from new() and default(). Undocumented per method; the type's comment says a limit given for a type limits 'that type only', in-tree each call REPLACES that family's limit. Model: per family None or the last set given. Afterwards accessors (literal block lists), is_empty, ==, Display and serde must equal a twin made directly, and apply_to on four probe sets (everything, nothing, two mixed) must answer as the model; non-trivial = sequences that limit one family at least twice or two different families",
+            _ => "TbsCert's resources as an object with a history (no signing needed): every sequence of <= N calls out of, per family (as, v4, v6): {set_*_resources(missing() | inherit() | blocks(X)), set_*_resources_inherit(), build_*_resource_blocks(|b| push X), *_resources_from_iter(X) for every subset X of a 3-atom universe incl. the empty one, two of them also atom by atom from the top}, clone() and continue on the clone, clone() and keep it; starting from TbsCert::new (all missing). Documentation: 'Set(s) the ... resources', 'Builds the blocks ... resources', 'Builds the ... resources from an iterator' -- every call REPLACES that family's resources (build_* makes a fresh builder each time) and must leave the other two families alone. Model: per family the shape given last (inherit | missing | blocks). Afterwards the three accessors (shape, literal block list, == the value made directly), has_ip_resources() and the encoded certificate data (must contain exactly the RFC 3779 extensions the independent encoder writes for the model's shapes, none for missing families) are judged; non-trivial = sequences that touch one family at least twice or two different families",
+        });
+        let pfx = format!("C03.builder.sequences.{target}");
+        let n_op = mu.n_operands();
+        let mut ops: Vec<MOp> = Vec::new();
+        for f in 0..3 {
+            for i in 0..n_op { ops.push(MOp::Set(f, i)) }
+            if target == "tbs" {
+                ops.push(MOp::SetShape(f, None)); ops.push(MOp::SetShape(f, Some(0))); ops.push(MOp::SetInherit(f));
+                for i in 0..n_op { ops.push(MOp::Build(f, i)); if !mu.desc(i) { ops.push(MOp::FromIter(f, i)) } }
+            }
+        }
+        ops.push(MOp::CloneContinue); ops.push(MOp::CloneKeep);
+        let starts: &[&str] = match target { "set" => &["empty()", "default()", "all()"], "limit" => &["new()", "default()"], _ => &["TbsCert::new(..)"] };
+        let ns = starts.len() as u64;
+        let k = ops.len() as u64;
+        let total = seq_count(k, max_len);
+        // probe sets for apply_to
+        let mk_set = |t: [u32; 3]| ResourceSet::new(mu.twin_as(t[0]), mu.twin_ip(1, t[1]).into(), mu.twin_ip(2, t[2]).into());
+        let probes: Vec<([u32; 3], ResourceSet)> = [[full, full, full], [0, 0, 0], [3, full & !1, 1], [full & !2, 1, full]].into_iter().map(|t| (t, mk_set(t))).collect();
+        let states: Mutex<BTreeSet<[Sh; 3]>> = Mutex::new(BTreeSet::new());
+        for len in 0..=max_len { let (from, to) = (if len == 0 { 0 } else { seq_count(k, len - 1) } * ns, seq_count(k, len) * ns);
+        par_chunks(to - from, 256, |lo, hi| {
+            let (lo, hi) = (lo + from, hi + from);
+            let mut oc: BTreeMap<&'static str, u64> = BTreeMap::new();
+            let mut local_states: BTreeSet<[Sh; 3]> = BTreeSet::new();
+            let (mut evals, mut nontriv, mut trans) = (0u64, 0u64, 0u64);
+            let mut idx: Vec<usize> = Vec::new();
+            for n in lo..hi {
+                let start = (n % ns) as usize;
+                seq_at(k, max_len, n / ns, &mut idx);
+                let seq: Vec<MOp> = idx.iter().map(|&i| ops[i]).collect();
+                let fams: Vec<usize> = seq.iter().filter_map(|o| match *o { MOp::Set(f, _) | MOp::SetShape(f, _) | MOp::SetInherit(f) | MOp::Build(f, _) | MOp::FromIter(f, _) => Some(f), _ => None }).collect();
+                if fams.len() >= 2 { nontriv += 1 }
+                evals += 1; trans += seq.len() as u64 + 1;
+                let wit = || format!("object={} start={} calls=[{}]", match target { "set" => "ResourceSet", "limit" => "RequestResourceLimit", _ => "TbsCert" }, starts[start], seq.iter().map(|o| mop_txt(mu, target, *o)).collect::<Vec<_>>().join("; "));
+                // the model: per family the shape given last
+                let init: [Sh; 3] = match (target, start) { ("set", 2) => [Some(full); 3], ("set", _) => [Some(0); 3], ("limit", _) => [None; 3], _ => [Some(0); 3] };
+                let step = |t: &mut [Sh; 3], op: MOp| match op {
+                    MOp::Set(f, i) | MOp::Build(f, i) | MOp::FromIter(f, i) => t[f] = Some(mu.mask(i)),
+                    MOp::SetShape(f, s) => t[f] = s, MOp::SetInherit(f) => t[f] = None, _ => {} };
+                let r = guard(|| -> Vec<(&'static str, [Sh; 3], Result<(), String>)> {
+                    let mut t = init; let mut out = Vec::new();
+                    match target {
+                        "set" => {
+                            let mut cur = match start { 0 => ResourceSet::empty(), 1 => ResourceSet::default(), _ => ResourceSet::all() };
+                            let mut kept: Vec<(ResourceSet, [Sh; 3])> = Vec::new();
+                            let plain = |t: [Sh; 3]| [t[0].unwrap(), t[1].unwrap(), t[2].unwrap()];
+                            for &op in &seq { match op {
+                                MOp::Set(0, i) => cur.set_asn(mu.as_val(i)), MOp::Set(1, i) => cur.set_ipv4(mu.v4_val(i).into()), MOp::Set(_, i) => cur.set_ipv6(mu.v6_val(i).into()),
+                                MOp::CloneContinue => { let c = cur.clone(); let orig = std::mem::replace(&mut cur, c); out.push(("the original, judged right after it was cloned", t, judge_set(mu, &orig, plain(t)))) }
+                                MOp::CloneKeep => kept.push((cur.clone(), t)),
+                                _ => unreachable!() }
+                                step(&mut t, op) }
+                            out.push(("the object", t, judge_set(mu, &cur, plain(t))));
+                            for (c, ct) in kept { out.push(("the clone taken earlier, judged last", ct, judge_set(mu, &c, plain(ct)))) }
+                        }
+                        "limit" => {
+                            let mut cur = if start == 0 { RequestResourceLimit::new() } else { RequestResourceLimit::default() };
+                            let mut kept: Vec<(RequestResourceLimit, [Sh; 3])> = Vec::new();
+                            for &op in &seq { match op {
+                                MOp::Set(0, i) => cur.with_asn(mu.as_val(i)), MOp::Set(1, i) => cur.with_ipv4(mu.v4_val(i).into()), MOp::Set(_, i) => cur.with_ipv6(mu.v6_val(i).into()),
+                                MOp::CloneContinue => { let c = cur.clone(); let orig = std::mem::replace(&mut cur, c); out.push(("the original, judged right after it was cloned", t, judge_limit(mu, &orig, t, &probes))) }
+                                MOp::CloneKeep => kept.push((cur.clone(), t)),
+                                _ => unreachable!() }
+                                step(&mut t, op) }
+                            out.push(("the object", t, judge_limit(mu, &cur, t, &probes)));
+                            for (c, ct) in kept { out.push(("the clone taken earlier, judged last", ct, judge_limit(mu, &c, ct, &probes))) }
+                        }
+                        _ => {
+                            let mut cur = base_tbs.clone();
+                            let mut kept: Vec<(rpki::repository::cert::TbsCert, [Sh; 3])> = Vec::new();
+                            for &op in &seq { match op {
+                                MOp::Set(0, i) => cur.set_as_resources(AsResources::blocks(mu.as_val(i))),
+                                MOp::Set(1, i) => cur.set_v4_resources(IpResources::blocks(mu.v4_val(i))),
+                                MOp::Set(_, i) => cur.set_v6_resources(IpResources::blocks(mu.v6_val(i))),
+                                MOp::SetShape(0, s) => cur.set_as_resources(if s.is_none() { AsResources::inherit() } else { AsResources::missing() }),
+                                MOp::SetShape(1, s) => cur.set_v4_resources(if s.is_none() { IpResources::inherit() } else { IpResources::missing() }),
+                                MOp::SetShape(_, s) => cur.set_v6_resources(if s.is_none() { IpResources::inherit() } else { IpResources::missing() }),
+                                MOp::SetInherit(0) => cur.set_as_resources_inherit(), MOp::SetInherit(1) => cur.set_v4_resources_inherit(), MOp::SetInherit(_) => cur.set_v6_resources_inherit(),
+                                MOp::Build(0, i) => cur.build_as_resource_blocks(|b| for &(lo, hi) in &mu.oa[i].raw { AsFam::bb_push(b, Kind::As, lo, hi) }),
+                                MOp::Build(1, i) => cur.build_v4_resource_blocks(|b| for &(lo, hi) in &mu.o4[i].raw { IpFam::bb_push(b, Kind::V4, lo, hi) }),
+                                MOp::Build(_, i) => cur.build_v6_resource_blocks(|b| for &(lo, hi) in &mu.o6[i].raw { IpFam::bb_push(b, Kind::V6, lo, hi) }),
+                                MOp::FromIter(0, i) => cur.as_resources_from_iter(mu.oa[i].blocks.iter().copied()),
+                                MOp::FromIter(1, i) => cur.v4_resources_from_iter(mu.o4[i].blocks.iter().copied()),
+                                MOp::FromIter(_, i) => cur.v6_resources_from_iter(mu.o6[i].blocks.iter().copied()),
+                                MOp::CloneContinue => { let c = cur.clone(); let orig = std::mem::replace(&mut cur, c); out.push(("the original, judged right after it was cloned", t, judge_tbs(mu, &orig, t))) }
+                                MOp::CloneKeep => kept.push((cur.clone(), t)),
+                            }
+                                step(&mut t, op) }
+                            out.push(("the object", t, judge_tbs(mu, &cur, t)));
+                            for (c, ct) in kept { out.push(("the clone taken earlier, judged last", ct, judge_tbs(mu, &c, ct))) }
+                        }
+                    }
+                    out
+                });
+                match r {
+                    Err(p) => ctx.fail(&format!("{pfx}.panic"), wit(), p),
+                    Ok(outs) => for (what, t, verdict) in outs {
+                        local_states.insert(t);
+                        let cls: &'static str = if t.iter().any(|s| s.is_none()) { if target == "limit" { "final:some-family-unlimited" } else { "final:some-family-inherits" } } else if t.iter().all(|s| *s == Some(0)) { "final:all-empty" } else { "final:blocks-only" };
+                        *oc.entry(cls).or_insert(0) += 1;
+                        if let Err(d) = verdict { ctx.fail(&pfx, wit(), format!("{what}: {d}")) }
+                    },
+                }
+            }
+            sp.evals(evals); sp.nontrivial(nontriv); sp.transitions(trans); sp.traces(evals); sp.merge_outcomes(&oc);
+            states.lock().unwrap().extend(local_states);
+        }); }
+        let states = states.into_inner().unwrap();
+        sp.states(states.len() as u64);
+        sp.set("operation_alphabet", json!(ops.len())); sp.set("starts", json!(starts)); sp.set("sequences", json!(total * ns)); sp.set("atoms_per_family", json!(nat));
+        sp.sample_str(|| format!("calls e.g. {}", ops.iter().step_by(ops.len() / 5 + 1).map(|o| mop_txt(mu, target, *o)).collect::<Vec<_>>().join(" | ")));
+        sp.done(true, &format!("all sequences of <= {max_len} calls over {} calls x {} starts; {} model states reached", ops.len(), ns, states.len()));
+    }
+}
+
 //------------ main ---------------------------------------------------------------------------------
 
 fn boundary(kind: Kind, lows: u128, highs: u128) -> Vec<u128> {
@@ -2596,6 +3171,8 @@ fn main() {
     for (kind, name) in [(Kind::As, "as"), (Kind::V4, "v4"), (Kind::V6, "v6")] { scale(&ctx, kind, name) }
     as_iteration(&ctx);
     history(&ctx);
+    builder_sequences_single(&ctx, n);
+    builder_sequences_multi(&ctx, n);
     if thorough {
         // wider boundary domain, construction only (2^15 subsets are too many for the pairwise closure)
         for (name, kind) in [("as14", Kind::As), ("v4x14", Kind::V4), ("v6x14", Kind::V6)] {
